@@ -3,6 +3,7 @@
 // one canonical line per case (same format as ocaml/driver.ml).
 #include <algorithm>
 #include <array>
+#include <chrono>
 #include <condition_variable>
 #include <cstdio>
 #include <cstdlib>
@@ -169,11 +170,25 @@ static std::string process(const std::string & line) {
 
 int main(int argc, char ** argv) {
     if (const char * c = std::getenv("VERIF_ALLOC_CAP")) ALLOC_CAP = std::strtoull(c, nullptr, 10);
+    // watchdog: a decoder that does not return (e.g. a signature search that never ends) is a hang, not a 10-minute batch timeout
+    static std::atomic<long> progress(0);
+    std::thread([] {
+        long last = -1;
+        int idle = 0;
+        while (true) {
+            std::this_thread::sleep_for(std::chrono::milliseconds(250));
+            long p = progress;
+            if (p != last) { last = p; idle = 0; continue; }
+            if (++idle >= 40) { std::cerr << "WATCHDOG hang in case " << p << std::endl; std::_Exit(7); }
+        }
+    }).detach();
     std::ifstream f(argc > 1 ? argv[1] : "/dev/stdin");
     std::string line;
     while (std::getline(f, line)) {
         if (line.empty() || line[0] == '#') continue;
+        progress++;
         std::cout << process(line) << std::endl;
     }
-    return 0;
+    progress = -1000000;
+    std::_Exit(0);
 }
